@@ -1075,6 +1075,29 @@ def rw_mut_bindings(toks, rep):
     return out
 
 
+def rw_R18_mut_self(sig_toks, body_toks, rep):
+    """R18: `fn f(mut self, ..)` (unsupported by Verus) -> `fn f(self, ..) { let mut verif_self = self; .. }` with the
+    body's `self` renamed to `verif_self` (pure renaming of a by-value receiver)."""
+    sig = [q for q, t in enumerate(sig_toks) if t.kind not in (WS, COMMENT)]
+    hit = None
+    for a0 in range(len(sig) - 2):
+        if sig_toks[sig[a0]].text == "(" and sig_toks[sig[a0 + 1]].text == "mut" and sig_toks[sig[a0 + 2]].text == "self":
+            hit = sig[a0 + 1]; break
+    if hit is None:
+        return sig_toks, body_toks
+    sig_toks = sig_toks[:hit] + sig_toks[hit + 1:]
+    out = []
+    for t in body_toks:
+        if t.kind == IDENT and t.text == "self":
+            out.append(T(IDENT, "verif_self"))
+        else:
+            out.append(t)
+    first = next(q for q, t in enumerate(out) if t.text == "{")
+    out[first + 1:first + 1] = [T("raw", " let mut verif_self = self; ")]
+    rep.append(("R18", "`mut self` receiver -> `self` + `let mut verif_self = self;` (body's self renamed)"))
+    return sig_toks, out
+
+
 def rw_R17_ctor_fn(toks, rep):
     """R17: an enum-variant constructor passed as a function (`.map(SocketAddr::V4)`, `.map_err(Error::X)`) is eta-expanded
     into a closure with its obvious contract: `.map(|verif_e| -> (verif_r: SocketAddr) ensures verif_r == SocketAddr::V4(verif_e)
@@ -1693,6 +1716,7 @@ def _build_fn(sf: SourceFile, item: Item, impl, ex: Extract, props, rep, unit, a
     body_toks = rw_strip_comments(body_toks, rep)
     body_toks = rw_mut_bindings(body_toks, rep)
     body_toks = rw_R17_ctor_fn(body_toks, rep)
+    sig_toks, body_toks = rw_R18_mut_self(sig_toks, body_toks, rep)
     if PATH_CANARIES[0] and a.get("mode") != "stub":
         body_toks = rw_path_canaries(body_toks, rep, qual, ex, unit_ret=("->" not in text_of(sig_toks)))
     rules = ex.rules
